@@ -586,8 +586,20 @@ impl S {
                         .chain(before.counters.iter().filter(|(k, _)| !after.counters.contains_key(*k)))
                         .find(|(k, _)| **k != eth && (dec.is_none() || decode_eth_manual(k) != dec))
                         .map(|(k, _)| k.clone());
+                    let signed_for = kv_s(line, "for");
                     if !w.listed.contains(&eth) {
                         finding = bad("not-listed-accepted", format!("claim for {eth} accepted but it is not on the airdrop's list"));
+                    } else if signed_for.as_deref().map(|f| f != sender).unwrap_or(false) {
+                        // from what the harness knows about who signed what — not from the template the contract accepted
+                        finding = bad(
+                            "signature-accepted-from-other-wallet",
+                            format!("claim by {sender} succeeded with a signature that was produced for the claim text of wallet {} (the signed text does not bind the caller: replay from a different Stargaze wallet)", signed_for.unwrap_or_default()),
+                        );
+                    } else if !text.contains(sender.as_str()) {
+                        finding = bad(
+                            "claim-text-without-caller-address",
+                            format!("claim by {sender} succeeded over the text `{}`, which does not contain the caller's address (any wallet can present this signature)", text.chars().take(80).collect::<String>()),
+                        );
                     } else if !well_formed(&sig, &eth) {
                         finding = bad("malformed-accepted", "malformed Ethereum address or signature accepted".into());
                     } else if !indep_valid(&text, &sig, &eth) {
@@ -1177,8 +1189,14 @@ struct Scn {
     live: bool,
 }
 
+/// a claim by `sender` presenting a signature the generator made for `sender`'s own claim text
 fn claim_line(sender: &str, eth: &str, sig: &str) -> String {
-    format!("claim sender={} eth={} sig={}", hxs(sender), hxs(eth), hxs(sig))
+    claim_line_for(sender, eth, sig, sender)
+}
+/// `signed_for`: the Stargaze wallet whose claim text the generator signed to obtain `sig` (what the harness knows about
+/// who signed what; carried in the line so that a replay can judge it; the model ignores it)
+fn claim_line_for(sender: &str, eth: &str, sig: &str, signed_for: &str) -> String {
+    format!("claim sender={} eth={} sig={} for={}", hxs(sender), hxs(eth), hxs(sig), hxs(signed_for))
 }
 
 /// one claim op of mutation kind `kind`; returns (line, kind label)
@@ -1198,7 +1216,7 @@ fn gen_claim_as(rng: &mut Rng, sc: &Scn, kind: u64, ki: usize, wi: usize, who: O
         2 => (claim_line(w, &k.eth, &h(&good).to_uppercase()), "valid-upper-hex"),
         3 => {
             let w2 = WALLETS[(wi + 1 + rng.below(WALLETS.len() as u64 - 1) as usize) % WALLETS.len()];
-            (claim_line(w2, &k.eth, &h(&good)), "replay-other-wallet")
+            (claim_line_for(w2, &k.eth, &h(&good), w), "replay-other-wallet")
         }
         4 => {
             let k2 = &sc.keys[(ki + 1) % sc.keys.len()];
@@ -1603,6 +1621,7 @@ fn main() {
         "claim:valid:ok:L<open$",
         "claim:replay-other-wallet:err",
         "claim:other-key:err",
+        "cross-wallet-replay:lower-case-template:refused",
         "claim:v-sweep:exactly-the-two-encodings-of-the-right-parity",
         "claim:vother:err",
         "limit2:round1:ok",
@@ -1847,7 +1866,7 @@ fn main() {
             claim_line(w0, &keys[0].eth, &sg(&keys[0], w0)),
             claim_line(w1, &keys[0].eth, &sg(&keys[0], w1)),
             claim_line(w0, &keys[1].eth, &sg(&keys[1], w0)),
-            claim_line(w1, &keys[0].eth, &sg(&keys[0], w0)), // replay of w0's signature by w1
+            claim_line_for(w1, &keys[0].eth, &sg(&keys[0], w0), w0), // replay of w0's signature by w1
             claim_line(w1, &keys[1].eth, &sg(&keys[0], w1)), // signed by the other key
             "FUND".to_string(),
         ];
@@ -1904,6 +1923,68 @@ fn main() {
                 ses.mark(format!("inst:{label}:claim:{}", first_word(&o2)));
             }
             ses.end_case();
+        }
+    }
+
+    // ------------------------------------------------------------------ 6b. the placeholder in other letter cases / missing / duplicated, at the length bounds;
+    // whenever such a template is ACCEPTED: wallet A signs and claims, then wallet B presents A's (address, signature) pair
+    {
+        let k = new_key(&mut rng, 5);
+        let variants: [(&str, &str); 9] = [
+            ("lower", "{wallet}"),
+            ("capital", "{Wallet}"),
+            ("upper", "{WALLET}"),
+            ("mixed", "{wAlLeT}"),
+            ("double", "{wallet}{wallet}"),
+            ("lower-and-upper", "{WALLET} {wallet}"),
+            ("none", "no placeholder here"),
+            ("unclosed", "{wallet"),
+            ("sentence-capital", "My Stargaze address is {Wallet} and I want a Winter Pal."),
+        ];
+        for (vn, core) in variants {
+            // the bare placeholder (shortest template), padded to exactly 1000 bytes (longest accepted), 1001 (refused)
+            for (ln, tpl) in [("min", core.to_string()), ("max", format!("{}{core}", "z".repeat(1000 - core.len()))), ("max+1", format!("{}{core}", "z".repeat(1001 - core.len())))] {
+                if ln == "max+1" && vn != "lower" && vn != "capital" {
+                    continue;
+                }
+              for order in ["own-first", "replay-first"] {
+                ses.begin_case(&mut sut, &header(&format!("placeholder-{vn}-{ln}-{order}"), 1, true, 40, 40));
+                ses.step(&mut sut, &format!("fund to={} amt={}", hxs(INST_SENDER), FEE + cx.amt * 3));
+                let o = ses.step(
+                    &mut sut,
+                    &format!("inst sender={} funds=0:{} amount={} limit=2 tpl={} addrs={}", hxs(INST_SENDER), FEE + cx.amt * 3, cx.amt, hxs(&tpl), hx_list(&[k.eth.clone()])),
+                );
+                ses.mark(format!("placeholder:{vn}:{ln}:inst-{}", first_word(&o)));
+                if o.starts_with("ok") {
+                    if !tpl.contains("{wallet}") {
+                        // not a property clause by itself (the property binds claims, not templates): recorded, not a monitor
+                        ses.mark(format!("instantiate:template-without-wallet-placeholder-accepted:{vn}"));
+                        ses.note(format!("instantiate accepted a template without the exact `{{wallet}}` placeholder ({vn})"));
+                    }
+                    let me = sut.w.as_ref().unwrap().airdrop.clone().unwrap();
+                    ses.step(&mut sut, &format!("cwl_admins sender={} admins={}", hxs(CREATOR), hx_list(&[CREATOR.to_string(), me])));
+                    let (a, b) = ("acct00001", "acct00002");
+                    let sig_a = signed(&k, &tpl, a);
+                    // A signs and claims; B presents A's (address, signature) pair (limit 2: it is not the limit that stops it);
+                    // in the second case B is quicker than A (the signature exists, A has not used it yet)
+                    let own = claim_line(a, &k.eth, &sig_a);
+                    let replay = claim_line_for(b, &k.eth, &sig_a, a);
+                    let (o1, o2) = if order == "own-first" {
+                        let o1 = ses.step(&mut sut, &own);
+                        (o1, ses.step(&mut sut, &replay))
+                    } else {
+                        let o2 = ses.step(&mut sut, &replay);
+                        (ses.step(&mut sut, &own), o2)
+                    };
+                    let o3 = ses.step(&mut sut, &claim_line(b, &k.eth, &signed(&k, &tpl, b))); // B's own signature
+                    ses.mark(format!("cross-wallet-replay:{vn}:{ln}:{order}:own-{}:replay-{}:then-own-{}", first_word(&o1), first_word(&o2), first_word(&o3)));
+                    if vn == "lower" && o1.starts_with("ok") && o2.starts_with("err") && o3.starts_with("ok") {
+                        ses.mark(format!("cross-wallet-replay:lower-case-template:refused:{order}"));
+                    }
+                }
+                ses.end_case();
+              }
+            }
         }
     }
 
